@@ -156,3 +156,21 @@ def list_indexed_last_in_store(fnode) -> str:
                     and isinstance(sl.slice.op, ast.USub) and isinstance(sl.slice.operand, ast.Constant) and sl.slice.operand.value == 1):
                 return sl.value.id
     raise Untranslatable("role list_indexed_last_in_store() not found")
+
+
+def unpack_targets(fnode, callee: str, k: int = 0) -> list[str]:
+    """the names a, b of `a, b = callee(...)` / `callee[T](...)` / `<x>.callee(...)` (k-th such statement)"""
+    hits = []
+    for n in ast.walk(fnode):
+        if (isinstance(n, ast.Assign) and len(n.targets) == 1 and isinstance(n.targets[0], ast.Tuple) and isinstance(n.value, ast.Call)
+                and all(isinstance(e, ast.Name) for e in n.targets[0].elts)):
+            f = n.value.func
+            if isinstance(f, ast.Subscript):
+                f = f.value
+            name = f.id if isinstance(f, ast.Name) else (f.attr if isinstance(f, ast.Attribute) else None)
+            if name == callee:
+                hits.append((n.lineno, [e.id for e in n.targets[0].elts]))
+    hits.sort()
+    if k >= len(hits):
+        raise Untranslatable(f"role unpack_targets({callee},{k}) not found")
+    return hits[k][1]
